@@ -64,6 +64,9 @@ type c13Built struct {
 
 var c13DBCounter int
 
+// clean-ups of this run after which workers of the handlers were still running
+var c13CleanupTimeouts int
+
 func (s c13Spec) build() *c13Built {
 	b := &c13Built{}
 	pre, _ := repoGoroutines()
@@ -112,7 +115,11 @@ func (s c13Spec) build() *c13Built {
 		hcancel()
 		// the handlers' own workers (SQLite bulk inserter) end with their context: wait for them, so that the
 		// next case measures its baseline on a quiet process
-		waitGoroutines(pre, 3*time.Second)
+		if c13CleanupTimeouts < 5 {
+			if left, _ := waitGoroutines(pre, 3*time.Second); left > 0 {
+				c13CleanupTimeouts++ // the handler's own workers do not end on this tree: no use waiting every time
+			}
+		}
 		for _, db := range dbs {
 			db.Close()
 		}
@@ -146,11 +153,14 @@ func waitGoroutines(base int, d time.Duration) (int, string) {
 	}
 }
 
+// sessions of this run that left goroutines behind: after a dozen the sweep stops (each one waits three seconds)
+var c13Leaks int
+
 // sessions that did not return so far in this run: after a few the sweep stops (each costs ~10 s of waiting)
 var c13Stuck int
 
 func runC13Case(spec c13Spec, hist []mocrelay.ClientMsg, cut int, ending, peer string) {
-	if c13Stuck >= 6 {
+	if c13Stuck >= 6 || c13Leaks >= 12 {
 		return
 	}
 	b := spec.build()
@@ -224,6 +234,9 @@ func runC13Case(spec c13Spec, hist []mocrelay.ClientMsg, cut int, ending, peer s
 	if left < 0 {
 		// fewer than before the session: a worker of an earlier case ended meanwhile; nothing of this session is left
 		left = 0
+	}
+	if left > 0 {
+		c13Leaks++
 	}
 	out := M{"returned": returned, "leftover": left, "fed": fed}
 	if left > 0 {
@@ -382,7 +395,7 @@ func init() {
 					done++
 				}
 			}
-			for done < n && c13Stuck < 6 {
+			for done < n && c13Stuck < 6 && c13Leaks < 12 {
 				spec := genC13Spec(r, g)
 				hist := genC13Hist(r, g)
 				from := 0
